@@ -18,7 +18,7 @@
 
 using dz::Box;
 
-static uint64_t iso_digest(const Box& b) { return dz::fnv(b.probe() + " || " + b.xprobe(b)); }
+static uint64_t iso_digest(const Box& b) { return dz::fnv(b.probe() + " || " + b.xprobe(b) + (b.sane() ? "" : " || LOST-PARAMETERS")); }
 
 static std::string run_history(const std::string& kind, const std::vector<std::string>& ops) {
     const dz::Maker& mk = dz::kinds().at(kind);
@@ -33,7 +33,7 @@ static std::string run_history(const std::string& kind, const std::vector<std::s
         for (int j = 0; j < 3; ++j) if (j != k && slot[j] && par[j] == par[k]) { partner = j; break; }
         char buf[64];
         snprintf(buf, sizeof buf, "%s%d:%llx", out.empty() ? "" : " ", k,
-                 (unsigned long long)dz::fnv(slot[k]->probe() + " || " + slot[k]->xprobe(*slot[partner])));
+                 (unsigned long long)dz::fnv(slot[k]->probe() + " || " + slot[k]->xprobe(*slot[partner]) + (slot[k]->sane() ? "" : " || LOST-PARAMETERS")));
         out += buf;
     };
     for (const std::string& op : ops) {
@@ -135,6 +135,7 @@ int main(int argc, char** argv) {
             for (int p = 0; p < 2; ++p) {
                 std::unique_ptr<Box> b(dz::kinds().at(kv.first)(p));
                 printf("iso %s %d = %llx\n", kv.first.c_str(), p, (unsigned long long)iso_digest(*b));
+                printf("sane %s %d = %d\n", kv.first.c_str(), p, b->sane() ? 1 : 0);
             }
             for (size_t i = 0; i < kv.second.size(); ++i) run_batch(kv.first, kv.second, i, i + 1);
         }
@@ -152,6 +153,7 @@ int main(int argc, char** argv) {
         for (int p = 0; p < 2; ++p) {
             std::unique_ptr<Box> b(kv.second(p));
             printf("iso %s %d = %llx\n", kind.c_str(), p, (unsigned long long)iso_digest(*b));
+            printf("sane %s %d = %d\n", kind.c_str(), p, b->sane() ? 1 : 0);
         }
         std::vector<std::vector<std::string>> hs;
         for (int len = 1; len <= exh; ++len) {
